@@ -59,10 +59,33 @@ func (s *Service) renameHandler(ctx context.Context, msg RenameRequest) (types.N
 
 func (s *Service) create(ctx context.Context, tx gorp.Tx, _channels *[]Channel, opts CreateOptions) error {
 	channels := *_channels
+	// Auto-create index channels for calculated channels (only for new calculated
+	// channels, and only if the request does not already carry the index, which is the
+	// case when it was forwarded by the gateway node that generated it).
+	indexChannels := make([]Channel, 0, len(channels))
+	for _, ch := range channels {
+		if !ch.IsCalculated() || ch.LocalKey != 0 {
+			continue
+		}
+		indexName := ch.Name + calculatedIndexNameSuffix
+		if lo.ContainsBy(channels, func(o Channel) bool {
+			return o.Name == indexName && o.IsIndex && o.Leaseholder == node.KeyFree
+		}) {
+			continue
+		}
+		indexChannels = append(indexChannels, Channel{
+			Name:        indexName,
+			DataType:    telem.TimeStampT,
+			IsIndex:     true,
+			Virtual:     true,
+			Leaseholder: node.KeyFree,
+			Internal:    ch.Internal,
+		})
+	}
 	if *s.cfg.ValidateNames {
-		keys := KeysFromChannels(channels)
-		names := Names(channels)
-		if err := s.validateChannelNames(ctx, tx, keys, names, opts.RetrieveIfNameExists || opts.OverwriteIfNameExistsAndDifferentProperties); err != nil {
+		// The generated index names take part in name validation like any other name.
+		all := append(append(make([]Channel, 0, len(channels)+len(indexChannels)), channels...), indexChannels...)
+		if err := s.validateChannelNames(ctx, tx, KeysFromChannels(all), Names(all), opts.RetrieveIfNameExists || opts.OverwriteIfNameExistsAndDifferentProperties); err != nil {
 			return err
 		}
 	}
@@ -82,22 +105,6 @@ func (s *Service) create(ctx context.Context, tx gorp.Tx, _channels *[]Channel, 
 			channels[i].Virtual = true
 		} else if ch.LocalKey != 0 {
 			channels[i].LocalKey = 0
-		}
-	}
-
-	// Auto-create index channels for calculated channels (only for new calculated channels)
-	indexChannels := make([]Channel, 0, len(channels))
-	for _, ch := range channels {
-		if ch.IsCalculated() && ch.LocalKey == 0 {
-			indexCh := Channel{
-				Name:        ch.Name + calculatedIndexNameSuffix,
-				DataType:    telem.TimeStampT,
-				IsIndex:     true,
-				Virtual:     true,
-				Leaseholder: node.KeyFree,
-				Internal:    ch.Internal,
-			}
-			indexChannels = append(indexChannels, indexCh)
 		}
 	}
 
